@@ -762,7 +762,7 @@ func main() {
 		return
 	}
 
-	n := run.N(120, 20000)
+	n := run.N(120, 6000)
 	for i := 0; i < n && !run.TooManyViolations(); i++ {
 		r := hx.Fork(run.Seed, i)
 		c := genCase(r)
